@@ -335,7 +335,13 @@ def run_case(case, tier):
             viol.append({"cls": "empty-input-not-valueerror", "msg": "input without usable atoms: %r" % (run.exc,)})
         return util.finish(case, viol, counts, classes + ["emptied"], False, desc)
     text = pdbio.dump(recs)
-    run = obs.run_single(text, util.neutral_options(rng, classes=classes))
+    xo = util.neutral_options(rng, classes=classes)
+    keep_pen = rng.random() < 0.15
+    if keep_pen:
+        # a parameter file that keeps penalised groups in the report: then nothing may be missing
+        xo = xo + ["-p", util.write_cfg({"remove_penalised_group": 0})]
+        classes.append("penalised-groups-kept")
+    run = obs.run_single(text, xo)
     counts["pipeline_runs"] = 1
     counts["truncations"] = 1
     desc.update({"atoms_left": len(pdbio.atoms(recs)), "deleted_n": len(deleted), "exc": run.exc})
@@ -344,7 +350,7 @@ def run_case(case, tier):
                      "msg": "single() raised %s after deleting %d atoms (%s)" % (run.exc, len(deleted), desc.get("how") or desc.get("deleted") or desc.get("mode")),
                      "detail": {"deleted": deleted[:12]}})
     else:
-        census_mon.check(run, text, viol, counts, classes, allow_topup_extras=True)
+        census_mon.check(run, text, viol, counts, classes, allow_topup_extras=True, remove_penalised=not keep_pen)
     for w in (run.logs or []):
         m = w[2]
         if "Missing atoms or failed protonation" in m:
